@@ -1828,6 +1828,12 @@ def gen_energy_interval(rng, spec):
     E2 = E1 * lg(rng, 0.01, 3)
     if cut is not None:
         E2 = min(E2, max(30 * cut / sc, E1 * 1.5))
+    if spec['kind'] == 'epeak' and rng.random() < 0.85:
+        # mostly intervals the 50-node trapezoid of the class resolves (around / below the shifted cut-off);
+        # the remaining ones exercise the tail, where only "no exception" is checked (see epeak_rtol)
+        ceff = cut / (10.0 ** (spec['p']['e_peak_orig'] - spec['p']['e_peak'])) / sc
+        E1 = min(E1, ceff)
+        E2 = min(max(E2, E1 * 1.2), max(2.0 * ceff, E1 * 1.5), E1 * 30.0)
     return E1 * sc, E2 * sc
 
 
